@@ -303,3 +303,73 @@ def as_eq(c):
     if op == 'ne' and isinstance(val, tuple):
         return t, tuple(val), False
     return None
+
+
+def _through_unwraps(t):
+    """strip `?`, ok(), unwrap(), expect(), unwrap_or_default() and the Some/Ok downcasts around a value"""
+    t = deref_all(strip_casts(t))
+    for _ in range(8):
+        x, _chain = unwrap_ok(t)
+        x = deref_all(x)
+        if is_call(x, 'Result::unwrap_or_default', 'Result::unwrap_or', 'Result::unwrap', 'Result::expect', 'Option::unwrap', 'Option::expect',
+                   'Option::unwrap_or_default') and x[2]:
+            t = deref_all(x[2][0])
+            continue
+        return x
+    return t
+
+
+def _range_of(ix):
+    """(lo, hi) constants of a Range / RangeFrom / RangeTo aggregate (None for an open or non-constant end); else None"""
+    ix = deref_all(ix)
+    v = agg_variant(ix)
+    if not v:
+        return None
+    k = v[0].split('::')[-1] if v[0] else ''
+    k = ix[1][1].split('::')[-1]
+    if k == 'Range' and len(ix[2]) == 2:
+        return const_of(ix[2][0]), const_of(ix[2][1])
+    if k == 'RangeFrom' and len(ix[2]) == 1:
+        return const_of(ix[2][0]), None
+    if k == 'RangeTo' and len(ix[2]) == 1:
+        return 0, const_of(ix[2][0])
+    return None
+
+
+def subslice(t):
+    """(S, lo, hi) when the term is the sub-slice S[lo..hi] / S[lo..] / S[..hi] of a slice value with constant bounds, however it
+    is written: Index::index(S, range), (S.get(range) as Some).0, S.split_at(k).0 / .1; hi is None for an open end.  Else None."""
+    t = _through_unwraps(t)
+    if is_call(t, 'Index::index', 'index::index') and len(t[2]) == 2:
+        r = _range_of(t[2][1])
+        if r and r[0] is not None:
+            return deref_all(t[2][0]), r[0], r[1]
+        return None
+    if is_call(t, 'slice::get') and len(t[2]) == 2:
+        r = _range_of(t[2][1])
+        if r and r[0] is not None:
+            return deref_all(t[2][0]), r[0], r[1]
+        return None
+    if t[0] == 'field' and is_call(deref_all(t[1]), 'slice::split_at') and len(deref_all(t[1])[2]) == 2:
+        c = deref_all(t[1])
+        k = const_of(c[2][1])
+        idx = t[3] if len(t) > 3 else t[2]
+        if isinstance(k, int) and idx in (0, 1):
+            return (deref_all(c[2][0]), 0, k) if idx == 0 else (deref_all(c[2][0]), k, None)
+    return None
+
+
+def word_read(t):
+    """(S, o) when the term is the big-endian u32 at constant or symbolic offset o of slice S: read_u32(S, o), or
+    u32::from_be_bytes(<[u8; 4]>::try_from(S[o..o+4])) in any of its spellings (through `?` / unwrap).  Else None."""
+    t = _through_unwraps(t)
+    if is_call(t, 'functions::read_u32', 'iterator::read_u32', 'util::read_u32', 'read_u32') and len(t[2]) == 2:
+        return deref_all(t[2][0]), strip_casts(t[2][1])
+    if t[0] == 'call' and canon(t[1]).endswith('from_be_bytes') and 'u32' in t[1] and t[2]:
+        a = _through_unwraps(t[2][0])
+        if is_call(a, 'TryInto::try_into', 'TryFrom::try_from', 'try_into', 'try_from') and a[2]:
+            a = _through_unwraps(a[2][0])
+        s = subslice(a)
+        if s and isinstance(s[1], int) and s[2] == s[1] + 4:
+            return s[0], ('const', s[1], 'usize')
+    return None
